@@ -128,7 +128,7 @@ def analyze_stmt(case, sm):
                     res["oracle"].append("%s image tracks columns %s, expected %s" % (label, [names[i] for i in sorted(d)], [names[i] for i in trk]))
                 if ncells != len(d):
                     res["oracle"].append("%s image row repeats a column (%d cells for %d columns)" % (label, ncells, len(d)))
-                key = tuple(d.get(i) for i in pk)
+                key = tuple(d.get(i, ("o", "missing", "")) for i in pk)
                 if key in got:
                     res["oracle"].append("%s image has a row twice" % label)
                 got[key] = d
